@@ -1,10 +1,25 @@
 """C01 check specification (see lib/specs/__init__.py for the field reference)."""
 
+def _borrow(pid, sink, judge):
+    """A harness part of another property, judged by that property's judge (coq_import)."""
+    from importlib import import_module
+    sp = import_module('specs.' + pid).SPEC
+    for p in sp['parts']:
+        if sink in p['sinks']:
+            q = dict(p)
+            q['sinks'] = {sink: judge}
+            q['coq_import'] = sp['coq_check']
+            return q
+    raise KeyError((pid, sink))
+
+
 SPEC = {
     'id': 'C01',
     'title': 'Commit consensus needs 2f+1 distinct designated observers per chain',
     'coq_check': 'C01_check',
     'parts': [
+        # whole rounds on long-lived plugins (C04's history part; rollout rounds without an agreed f), judged by C04's round judge
+        _borrow('C04', 'C04_round', 'rd04_judge'),
         {'pkg': 'commit/merkleroot', 'pkgname': 'merkleroot',
          'src': 'harness/commit/merkleroot/c01_test.go', 'test': 'TestVerif_C01_mr', 'fakes': True,
          'sinks': {'C01_mr': 'mr_judge'}, 'n': {'quick': 600, 'thorough': 30000}},
@@ -17,7 +32,7 @@ SPEC = {
          'sinks': {'C01_quorum': 'quorum_judge'}, 'n': {'quick': 100, 'thorough': 2000}},
     ],
     'known': {},   # F26 (off-ramp numbers agreed at the key chain f) is repaired by fixes/F26.patch; F03 (discovery on-ramp threshold without agreed dest f) is repaired by fixes/F03.patch, not recorded
-    'rule': 'mr: DONs of 4..13 oracles (random ids), F = (N-1)/3 (plus F in {0,-1,random}), destination + 1..4 source chains with '
+    'rule': 'whole rounds of long-lived commit plugins (the C04 history part, sink C04_round, judged by the round judge of C04): Byzantine colluders, lost observations, role changes, and rollout rounds (1 in 8) in which three camps report three different f for one source chain so that the round has no agreed f for it; mr: DONs of 4..13 oracles (random ids), F = (N-1)/3 (plus F in {0,-1,random}), destination + 1..4 source chains with '
             'f_k in 1..3 and random reader sets; per chain and field (root / on-ramp max / off-ramp next / RMN remote config / fChain) '
             'the number of oracles voting value A is drawn from {0, thr-1, thr, thr+1, all} (off-ramp next: thr = the key chain threshold, the destination threshold, or any value from 2*min(f_k,f_dest)+1 to 2*max(f_k,f_dest)+1; class +fk!=fd) and a competing value B gets its own such count '
             '(B differs from A in exactly one component: root address / start / end / hash; RMN config signer key, node index, F, digest, version, address, report version; discovery address first byte / last byte / extra leading or trailing zero byte), the first holder of B being the reader with the lowest or the highest oracle id, observations handed over in ascending oracle id order (libocr) or shuffled; Byzantine stream: duplicate entries, foreign or unknown chains, off-ramp / RMN data '
